@@ -271,6 +271,10 @@ pub struct Cfg {
     /// stay: the builder has no way to unset one), across transactions, aborts and cancelled builds
     #[serde(default)]
     pub reuse_builder: bool,
+    /// with private_tmpdir: the process default temp directory (TMPDIR) is unusable for the whole run, so
+    /// that a build which ignores the directory given to Writer::set_tmpdir fails instead of going unnoticed
+    #[serde(default)]
+    pub default_tmp_unusable: bool,
     /// with reuse_builder: the options (n_trees, split_after, available_memory) of the long-lived builder of
     /// each index slot, fixed by the plan so that they do not depend on which build happens to run first
     #[serde(default)]
@@ -833,7 +837,7 @@ pub fn gen_history_with(seed: u64, focus: &str, thorough: bool, forced: Option<V
     }
 
     let pool = if r.chance(k.pool_pct, 100) { *r.pick(&[1usize, 2, 3, 4, 8, 16]) } else { 0 };
-    Plan {
+    let mut plan = Plan {
         seed,
         focus: focus.to_string(),
         engine: "H".into(),
@@ -849,6 +853,7 @@ pub fn gen_history_with(seed: u64, focus: &str, thorough: bool, forced: Option<V
             private_tmpdir: r.chance(1, 3),
             reuse_writer: r.chance(1, 2),
             reuse_builder: false,
+            default_tmp_unusable: false,
             builder_opts: Vec::new(),
             queries: 3 + r.below(4) as usize,
             query_seed: r.next(),
@@ -858,7 +863,10 @@ pub fn gen_history_with(seed: u64, focus: &str, thorough: bool, forced: Option<V
         scenarios: None,
         stage_committed: false,
         params: Default::default(),
-    }
+    };
+    // (drawn last, so that the rest of the plan does not depend on it)
+    plan.cfg.default_tmp_unusable = plan.cfg.private_tmpdir && r.chance(1, 2);
+    plan
 }
 
 fn gen_split_after(r: &mut Rng, k: &GenKnobs, dim: usize) -> Option<usize> {
